@@ -1,50 +1,8 @@
 import FastQr.Proofs.PlaceRead
 import FastQr.Proofs.BuildSound
+import FastQr.Proofs.FinalData
 namespace FastQr.Proofs.ReadBack
-open FastQr Model Spec Finite Proofs Proofs.PlaceRead
-
-/-- on an encoding-region cell the final symbol shows the placed bit XOR the mask condition -/
-theorem finalMatrix_data {v m : Nat} (hv : v < 40) (hm : m < 8) (l : ECL) (bytes : Array Nat)
-    {r c : Nat} (hr : r < Regions.side v) (hc : c < Regions.side v) (hd : (template v).type r c = tData) :
-    (finalMatrix v bytes l m).value r c = ((placeData (template v) bytes).1.value r c != maskCond m r c) := by
-  have hn := template_n hv
-  obtain ⟨hpn, hpwf, hpp⟩ := placeData_template hv bytes
-  have hfp := formatPosOk_of hv l hm
-  simp only [formatPosOk, Bool.and_eq_true, and_assoc] at hfp
-  obtain ⟨hb, hcells, hreg, _⟩ := hfp
-  have hb' : ∀ w ∈ formatWrites (Regions.side v) (T.formatInfo l m),
-      w.1 < (placeData (template v) bytes).1.n ∧ w.2.1 < (placeData (template v) bytes).1.n := by
-    intro w hw
-    simp only [writesInBounds, List.all_eq_true, decide_eq_true_eq] at hb
-    rw [hpn]; exact hb w hw
-  have hW := applyWrites_get (placeData (template v) bytes).1 hpwf _ hb' (r := r) (c := c) (by rw [hpn]; exact hc)
-  have hWwf := applyWrites_WF (placeData (template v) bytes).1 (formatWrites (Regions.side v) (T.formatInfo l m)) hpwf
-  have hWn : (applyWrites (placeData (template v) bytes).1 (formatWrites (Regions.side v) (T.formatInfo l m))).n
-      = 21 + 4 * v := by rw [applyWrites_n, hpn]; rfl
-  have hmask := applyMask_get hv hm _ hWwf hWn (r := r) (c := c) (by rw [hWn]; exact hr) (by rw [hWn]; exact hc)
-  have htt := template_type hv hr hc
-  have hregd : (Regions.region v r c).code = tData := by rw [← htt]; exact hd
-  have hnone : lastWrite (formatWrites (Regions.side v) (T.formatInfo l m)) r c = none := by
-    cases hl : lastWrite (formatWrites (Regions.side v) (T.formatInfo l m)) r c with
-    | none => rfl
-    | some b' =>
-      obtain ⟨w, hw, rfl, rfl, _⟩ := lastWrite_some hl
-      simp only [List.all_eq_true, Bool.and_eq_true, List.contains_eq_mem, decide_eq_true_eq, beq_iff_eq] at hcells hreg
-      have := hreg _ (hcells w hw).1
-      rw [this] at hregd
-      exact absurd hregd (by decide)
-  have hget : (applyWrites (placeData (template v) bytes).1
-      (formatWrites (Regions.side v) (T.formatInfo l m))).get r c = (placeData (template v) bytes).1.get r c := by
-    rw [hW, hnone, Option.getD_none]
-  have hpt : mtype ((placeData (template v) bytes).1.get r c) = tData := by
-    have := (hpp r c hr hc).1
-    simp only [QR.type] at this
-    rw [this]; exact hregd
-  simp only [finalMatrix, hpn, QR.value]
-  rw [hmask, hget]
-  cases hmc : maskCond m r c
-  · simp
-  · simp [hpt]
+open FastQr Model Spec Finite Proofs Proofs.PlaceRead Proofs.FinalData
 
 theorem modelScan_mem {v : Nat} (hv : v < 40) {p : Nat × Nat} (hp : p ∈ modelScan v) :
     p ∈ scanCoords (Regions.side v) ∧ (template v).type p.1 p.2 = tData := by
